@@ -5,7 +5,7 @@ from engine.api import Ob, pick, choose, cover, selftest_ob
 from ref import term
 from ref.view import S, TEXT, SIGMA4, build2, norm_slice, ranges, same_table, first_diff
 
-from ansi_string import AnsiString
+from ansi_string import AnsiString, AnsiStr
 
 LEVEL = 'model_checking'
 
@@ -61,6 +61,9 @@ def h_slice(n: int, k: int, s1: int, r1: int, s2: int, r2: int, t2: bool, c: Opt
     cl = s.clip(c, d)
     if cl.base_str != piece.base_str or not same_table(S(cl, m), got) or not (cl == piece):
         return ('clip-differs', c, d, S(cl, m), got)
+    acl = AnsiStr(s).clip(c, d)
+    if acl.base_str != piece.base_str or not same_table(S(acl, m), got) or str(acl) != str(piece):
+        return ('ansistr-clip-differs', c, d, acl.base_str, S(acl, m), got)
     return True
 
 
